@@ -42,6 +42,16 @@
 (***************************************************************************)
 EXTENDS YQuery
 
+\* Design variants.  The default (PinnedDefects = {}) is the repaired source (fix: commits dcbc53b, 989f2f4,
+\* 5669cab); a member of PinnedDefects restores the pinned behaviour of that place, so that both the defective
+\* and the repaired design can be model-checked:
+\*   "set-in-seq"                 a Set held by a list is not descended into but compared as if it were a scalar
+\*   "expand-set"                 yield_children has no Set arm: a Set below an expanded parent is listed as one leaf
+\*   "alias-after-covered-anchor" the children of a parent matched by name (no --expand) are skipped without
+\*                                recording their anchors
+CONSTANT PinnedDefects
+Pinned(c) == c \in PinnedDefects
+
 Opts(vals, keys, refs, ka, va, expand) ==
   [vals |-> vals, keys |-> keys, refs |-> refs, ka |-> ka, va |-> va, expand |-> expand]
 Terms(inv, op, term) == [inv |-> inv, op |-> op, term |-> term]
@@ -83,8 +93,8 @@ TabWith(d, T, H(_, _), Sl(_, _)) ==
   [val  |-> [i \in ScalarIds(d) |-> H(T, ScalarHay(d, i))],
    key  |-> [i \in KeyedIds(d) |-> H(T, KeyHay(d, i))],
    ref  |-> [a \in AnchorNames(d) |-> H(T, Hay("str", a))],
-   \* a Set met as a list element is compared as if it were a scalar (its Python text): never equal
-   \* to a term of the vocabulary, so only the inversion decides (mirror; see DevClass "set-in-seq")
+   \* pinned "set-in-seq" only: a Set met as a list element is compared as if it were a scalar (its Python
+   \* text): never equal to a term of the vocabulary, so only the inversion decides
    setv |-> T.inv,
    ival |-> \E i \in ScalarIds(d) : Sl(T, ScalarHay(d, i)),
    ikey |-> \E i \in KeyedIds(d) : Sl(T, KeyHay(d, i)),
@@ -171,6 +181,8 @@ SearchAnchor(name, m, st, refs, incl) ==
 RECURSIVE YieldChildren(_, _, _, _, _, _, _)
 RECURSIVE YSeqLoop(_, _, _, _, _, _, _, _)
 RECURSIVE YMapLoop(_, _, _, _, _, _, _, _)
+RECURSIVE YSetLoop(_, _, _, _, _, _, _, _)
+YConts == IF Pinned("expand-set") THEN {"map", "seq"} ELSE {"map", "seq", "set"}     \* 316, 358
 
 YSeqLoop(d, x, j, steps, st, m, O, of) ==                                                \* 288-324
   IF j > Len(d[x].kids) THEN st
@@ -178,7 +190,7 @@ YSeqLoop(d, x, j, steps, st, m, O, of) ==                                       
            sa == SearchAnchor(d[e].anchor, m, st, O.refs, O.va)
            tp == Append(steps, IF sa.r = "NO_ANCHOR" THEN Step("idx", NatStr(j - 1)) ELSE Step("anc", d[e].anchor))
            st2 == IF ~O.va /\ sa.r \in Excluders THEN sa.st                              \* 312-314
-                  ELSE IF d[e].k \in {"map", "seq"} THEN YieldChildren(d, e, tp, sa.st, m, O, of)
+                  ELSE IF d[e].k \in YConts THEN YieldChildren(d, e, tp, sa.st, m, O, of)
                   ELSE Yield(sa.st, e, tp, "leaf", of)
        IN YSeqLoop(d, x, j + 1, steps, st2, m, O, of)
 
@@ -189,14 +201,23 @@ YMapLoop(d, x, j, steps, st, m, O, of) ==                                       
            \* the key's own anchor is classified first (339-341); YData keys carry none
            sv == SearchAnchor(d[v].anchor, m, st, O.refs, O.va)                          \* 342-344
            st2 == IF ~O.va /\ sv.r \in Excluders THEN sv.st                              \* 350-356
-                  ELSE IF d[v].k \in {"map", "seq"} THEN YieldChildren(d, v, tp, sv.st, m, O, of)
-                  ELSE Yield(sv.st, v, tp, "leaf", of)                                   \* a Set is listed as itself
+                  ELSE IF d[v].k \in YConts THEN YieldChildren(d, v, tp, sv.st, m, O, of)
+                  ELSE Yield(sv.st, v, tp, "leaf", of)                                   \* (pinned: a Set is listed as itself)
        IN YMapLoop(d, x, j + 1, steps, st2, m, O, of)
+
+YSetLoop(d, x, j, steps, st, m, O, of) ==                                                \* the Set arm (repaired source)
+  IF j > Len(d[x].kids) THEN st
+  ELSE LET e == d[x].kids[j]
+           sa == SearchAnchor(d[e].anchor, m, st, O.refs, O.ka)
+           st2 == IF ~O.ka /\ sa.r \in Excluders THEN sa.st
+                  ELSE Yield(sa.st, e, Append(steps, Step("key", d[e].v)), "leaf", of)
+       IN YSetLoop(d, x, j + 1, steps, st2, m, O, of)
 
 YieldChildren(d, x, steps, st, m, O, of) ==
   IF d[x].k = "seq" THEN YSeqLoop(d, x, 1, steps, st, m, O, of)
   ELSE IF d[x].k = "map" THEN YMapLoop(d, x, 1, steps, st, m, O, of)
-  ELSE Yield(st, x, steps, "leaf", of)                                                   \* 368-371
+  ELSE IF d[x].k = "set" /\ ~Pinned("expand-set") THEN YSetLoop(d, x, 1, steps, st, m, O, of)
+  ELSE Yield(st, x, steps, "leaf", of)                                                   \* the last arm: a scalar
 
 (***************************************************************************)
 (* search_for_paths                                                        *)
@@ -206,9 +227,20 @@ RECURSIVE SeqLoop(_, _, _, _, _, _, _)
 RECURSIVE MapLoop(_, _, _, _, _, _, _)
 RECURSIVE SetLoop(_, _, _, _, _, _, _)
 
+\* _record_anchors (repaired source): the anchors beneath a node whose children will not be searched are put on
+\* record - search_anchor with its default arguments (no --refnames), key before value, value before its children
+RECURSIVE RecordAnchors(_, _, _, _)
+RECURSIVE RecordLoop(_, _, _, _, _)
+RecordLoop(d, x, j, st, m) ==
+  IF j > Len(d[x].kids) THEN st
+  ELSE LET e == d[x].kids[j] IN
+       RecordLoop(d, x, j + 1, RecordAnchors(d, e, SearchAnchor(d[e].anchor, m, st, FALSE, FALSE).st, m), m)
+RecordAnchors(d, x, st, m) == IF d[x].k = "s" THEN st ELSE RecordLoop(d, x, 1, st, m)
+
 \* a match by name: the node itself, or (expansion) its children
 MatchedParent(d, v, tp, st, m, O, kind) ==
-  IF O.expand THEN YieldChildren(d, v, tp, st, m, O, v) ELSE Yield(st, v, tp, kind, v)
+  IF O.expand THEN YieldChildren(d, v, tp, st, m, O, v)
+  ELSE Yield(IF Pinned("alias-after-covered-anchor") THEN st ELSE RecordAnchors(d, v, st, m), v, tp, kind, v)
 
 SeqLoop(d, x, j, steps, st, m, O) ==                                                     \* 409-487
   IF j > Len(d[x].kids) THEN st
@@ -217,8 +249,9 @@ SeqLoop(d, x, j, steps, st, m, O) ==                                            
            tp == Append(steps, IF sa.r = "NO_ANCHOR" THEN Step("idx", NatStr(j - 1)) ELSE Step("anc", d[e].anchor))
            st2 == IF sa.r = "ALIAS_EXCLUDED" THEN sa.st                                  \* 430-431
                   ELSE IF sa.r \in Matched THEN MatchedParent(d, e, tp, sa.st, m, O, "ref")   \* 433-449
-                  ELSE IF d[e].k \in {"seq", "map"} THEN SearchAt(d, e, tp, sa.st, m, O)      \* 451-470
-                  ELSE IF O.vals THEN                                                    \* 471-487 (a Set lands here)
+                  ELSE IF d[e].k \in (IF Pinned("set-in-seq") THEN {"seq", "map"} ELSE {"seq", "map", "set"})
+                       THEN SearchAt(d, e, tp, sa.st, m, O)                              \* 451-470
+                  ELSE IF O.vals THEN                                                    \* 471-487 (pinned: a Set lands here)
                     (IF sa.r = "UNSEARCHABLE_ALIAS" /\ ~O.va THEN sa.st
                      ELSE IF (IF d[e].k = "s" THEN m.val[e] ELSE m.setv) THEN Yield(sa.st, e, tp, "value", e)
                      ELSE sa.st)
@@ -305,9 +338,10 @@ PathsCanonical(d, m, O) == PathsCanonicalR(d, SearchM(d, m, O))
 ExpandsExactly(d, m, O) == ExpandsExactlyR(d, O, SearchM(d, m, O), MatchingM(d, m, O))
 
 (***************************************************************************)
-(* Where the mirrored search is known to leave the declarative definition  *)
-(* (predicted defects; the binding decides on the real code).  Defined on  *)
-(* the document, the table and the options - never on Search's outcome.    *)
+(* Where the PINNED designs leave the declarative definition (each was     *)
+(* confirmed on the pinned code and repaired).  Defined on the document,   *)
+(* the table and the options - never on Search's outcome.  With            *)
+(* PinnedDefects = {} no class applies and T2/T4 must hold everywhere.     *)
 (***************************************************************************)
 \* a Set held in a list is not descended into (451 tests only lists and hashes)
 SetInSeq(d) == \E s \in 2..Len(d) : d[s].k = "set" /\ d[d[s].par].k = "seq"
@@ -318,9 +352,9 @@ ExpandSetR(d, O, mt) == O.expand /\ \E i \in mt : d[i].k # "s" /\ \E s \in Subtr
 AliasAfterCovered(d, m, O) ==
   ~O.expand /\ ~O.va /\ \E i \in 2..Len(d) : d[i].alias # 0 /\ Covered(d, m, O, d[i].alias)
 DevClassR(d, m, O, mt) ==
-  IF SetInSeq(d) THEN "set-in-seq"
-  ELSE IF ExpandSetR(d, O, mt) THEN "expand-set"
-  ELSE IF AliasAfterCovered(d, m, O) THEN "alias-after-covered-anchor"
+  IF Pinned("set-in-seq") /\ SetInSeq(d) THEN "set-in-seq"
+  ELSE IF Pinned("expand-set") /\ ExpandSetR(d, O, mt) THEN "expand-set"
+  ELSE IF Pinned("alias-after-covered-anchor") /\ AliasAfterCovered(d, m, O) THEN "alias-after-covered-anchor"
   ELSE ""
 DevClass(d, m, O) == DevClassR(d, m, O, MatchingM(d, m, O))
 
